@@ -7,6 +7,18 @@ the repaired snapshot guarantees).  `compute` of the implementation is "what a f
 object with the same settings returns", so the check drives long-lived Sampler / QuickSampler /
 Analyzer objects through random histories of reconfigurations, reads and sampling calls and
 compares every observation with a fresh object built from the current settings.
+
+Streams:
+  1. shared components (run first: a directed corpus, then randomised histories): ONE Backend / Source / Detector /
+     PostSelection object and the circuit objects are used by several long-lived Samplers, QuickSamplers and
+     Analyzers at the same time; holders are created, reconfigured (assignment, in-place change of the shared
+     component, in-place change THROUGH one holder, circuit extended in place incl. a heralded gate) and observed
+     in interleaved order, on circuits related as lossy circuit / Unitary of its U_full / same matrix with other
+     heralds / herald on another mode; every observation of every holder is compared with a fresh object that is
+     given fresh components with the same values (oracle only: the cache model has one cache per object);
+  2. one long-lived Sampler or QuickSampler under a random history (as before, plus in-place extension by a
+     heralded gate);
+  3. Analyzer probes and histories.
 """
 
 from __future__ import annotations
@@ -25,7 +37,8 @@ TRUSTED = [
     "the cache model LW.Model.Cache abstracts U_full/source values to identifiers with decidable equality",
     "numpy / stdlib PRNG determinism for equal seeds",
 ]
-ASSUMPTIONS = ["histories of 4-14 steps on circuits with <= 4 modes, <= 3 photons"]
+ASSUMPTIONS = ["histories of 4-14 steps on circuits with <= 4 modes (<= 7 after in-place extension), <= 3 user photons",
+               "shared-component histories: <= 5 holders, two Backend / Source / Detector objects each"]
 
 
 def circuits(rng):
@@ -68,7 +81,16 @@ def circuits(rng):
         c.bs(0, 3, reflectivity=0.6)
         c.herald(1, hi, ho)
         fam[tag] = c
+    # the lossy circuit's full matrix as an ordinary 5-mode circuit: the same array, the loss modes are measured
+    fam["lossy_dil"] = lw.Unitary(np.array(fam["lossy"].U_full))
     return fam, p
+
+
+def heralded_gate():
+    """a block that carries its own ancilla photon: Circuit.add of it leaves input_modes unchanged"""
+    g = lw.Unitary(lw.random_unitary(2, seed=7))
+    g.herald(1, 1)
+    return g
 
 
 SAME_UFULL = [("idleherald0", "idleherald1"), ("idleherald1", "idleherald0")]
@@ -105,7 +127,7 @@ def gen_history(ctx: Ctx, rng, kind: str) -> list:
         if r < 0.22:
             steps.append(["circuit", rng.choice(names)])
         elif r < 0.3:
-            steps.append(["mutate_circuit", rng.choice(["bs", "ps"]), rng.randrange(2)])
+            steps.append(["mutate_circuit", rng.choice(["bs", "ps", "gate"]), rng.randrange(2)])
         elif r < 0.38:
             steps.append(["param", rng.choice([0.1, 0.5, 0.9])])
         elif r < 0.5:
@@ -193,6 +215,9 @@ def run_history(ctx: Ctx, kind: str, steps: list) -> list[str]:
                 c = fam[cur["circuit"]]
                 if st[1] == "bs":
                     c.bs(st[2], st[2] + 1, reflectivity=0.35)
+                elif st[1] == "gate":
+                    if c.n_modes <= 6:
+                        c.add(heralded_gate(), st[2])
                 else:
                     c.ps(st[2], 0.4)
             elif op == "param":
@@ -328,14 +353,428 @@ def analyzer_histories(ctx: Ctx, rng) -> None:
             return
 
 
+# ------------------------------------------------------------------------------------------------
+# shared components: one Backend / Source / Detector / PostSelection object (and the circuit objects and their
+# Parameter) used by SEVERAL long-lived Samplers, QuickSamplers and Analyzers in interleaved order.  Each
+# observation of each object is compared with a fresh object that is given fresh components with the same values.
+#
+#   ["new", name, kind, circuit, base_input, cfg]   kind: sampler | quick | analyzer
+#         cfg (sampler): {"b": "B0"|"B1"|"str:permanent"|"str:slos", "s": "SRC0"|"SRC1"|"own", "d": "D0"|"D1"|"own"}
+#         cfg (quick): {"pnr": bool, "ps": rules|None}     cfg (analyzer): {"ps": rules|None}
+#   ["set", name, attr, value]        attr: circuit | input | backend | source | detector | post_select | pnr
+#   ["mutate", ref, value]            in place on the shared component (Backend.backend, Source / Detector attributes)
+#   ["mutate_own", name, what, value] the same through one holder: sampler.source.brightness = ... etc.
+#   ["param", v]  ["mutate_circuit", circuit, what, mode]     the shared Parameter / circuit objects
+#   ["obs", name, what, ...]          read | sample seed | sample_N_outputs N seed rules | sample_N_inputs N seed rules
+#                                     | analyze inputs with_expected
+# Inputs are given on the three user modes of the family and padded with zeros to the circuit's input_modes.
+# A step that does not apply is skipped, so every sub-list is a history.
+
+SH_CIRCUITS = ["idleherald0", "idleherald1", "plain", "lossy", "lossy_dil", "heralded_sub", "swap", "herald_out0",
+               "herald_out2", "herald_in0"]
+SH_INPUTS = [[1, 0, 0], [1, 1, 0], [0, 1, 1], [2, 0, 0], [0, 0, 0], [1, 1, 1], [1, 0, 1]]
+SH_SRC = [[1, 1, 1], [0.8, 1, 1], [1, 0.9, 1], [1, 1, 0.7], [0.9, 0.95, 0.8]]
+SH_DET = [[1, 0, True], [1, 0, False], [0.9, 0, True], [0.85, 0, False], [1, 0.05, True]]
+SH_RULES = [None, [[0], [1]], [[0, 1], [1, 2]], [[2], [0]], [[1], [0, 1]]]
+SH_BREFS = ["B0", "B0", "B1", "str:permanent", "str:slos"]
+SH_INIT = {"B0": "permanent", "B1": "slos", "SRC0": [1, 1, 1], "SRC1": [0.9, 1, 1], "D0": [1, 0, True], "D1": [0.9, 0, False]}
+
+
+def _mk_source(v):
+    return emulator.Source(brightness=v[0], purity=v[1], indistinguishability=v[2])
+
+
+def _mk_detector(v):
+    return emulator.Detector(efficiency=v[0], p_dark=v[1], photon_counting=v[2])
+
+
+def _set_source(src, v) -> None:
+    src.brightness, src.purity, src.indistinguishability = v
+
+
+def _set_detector(det, v) -> None:
+    det.efficiency, det.p_dark, det.photon_counting = v
+
+
+def run_shared(ctx: Ctx, steps: list) -> list[str]:
+    fam, p = circuits(None)
+    vals = json.loads(json.dumps(SH_INIT))
+    comp = {"B0": emulator.Backend(vals["B0"]), "B1": emulator.Backend(vals["B1"]), "SRC0": _mk_source(vals["SRC0"]),
+            "SRC1": _mk_source(vals["SRC1"]), "D0": _mk_detector(vals["D0"]), "D1": _mk_detector(vals["D1"])}
+    psobjs: dict = {}
+    objs: dict = {}
+    gates: dict = {}
+
+    def ps_for(r):
+        key = json.dumps(r)
+        if key not in psobjs:
+            psobjs[key] = mk_ps(r)
+        return psobjs[key]
+
+    def pad(base, c):
+        return (list(base) + [0] * 8)[: c.input_modes]
+
+    def eff(o, what):
+        """the value that the holder's component has now"""
+        cur = o["cur"]
+        ref = cur[what]
+        if what == "b":
+            return ref[4:] if ref.startswith("str:") else vals[ref]
+        return cur["own_" + what] if ref == "own" else vals[ref]
+
+    def fresh(o):
+        cur = o["cur"]
+        c = fam[cur["circuit"]]
+        if o["kind"] == "sampler":
+            return emulator.Sampler(c, lw.State(cur["input"]), source=_mk_source(eff(o, "s")),
+                                    detector=_mk_detector(eff(o, "d")), backend=eff(o, "b"))
+        if o["kind"] == "quick":
+            return emulator.QuickSampler(c, lw.State(cur["input"]), photon_counting=cur["pnr"], post_select=mk_ps(cur["ps"]))
+        a = emulator.Analyzer(c)
+        if cur["ps"] is not None:
+            a.post_selection = mk_ps(cur["ps"])
+        return a
+
+    for k, st in enumerate(steps):
+        op = st[0]
+        try:
+            if op == "new":
+                _, name, kind, cname, base, cfg = st
+                c = fam[cname]
+                cur = {"circuit": cname, "input": pad(base, c)}
+                if kind == "sampler":
+                    cur.update({"b": cfg["b"], "s": cfg["s"], "d": cfg["d"], "own_s": [1, 1, 1], "own_d": [1, 0, True]})
+                    b = cfg["b"][4:] if cfg["b"].startswith("str:") else comp[cfg["b"]]
+                    obj = emulator.Sampler(c, lw.State(cur["input"]), source=comp.get(cfg["s"]), detector=comp.get(cfg["d"]),
+                                           backend=b)
+                elif kind == "quick":
+                    cur.update({"pnr": cfg["pnr"], "ps": cfg["ps"]})
+                    obj = emulator.QuickSampler(c, lw.State(cur["input"]), photon_counting=cfg["pnr"],
+                                                post_select=None if cfg["ps"] is None else ps_for(cfg["ps"]))
+                else:
+                    cur.update({"ps": cfg["ps"]})
+                    obj = emulator.Analyzer(c)
+                    if cfg["ps"] is not None:
+                        obj.post_selection = ps_for(cfg["ps"])
+                objs[name] = {"kind": kind, "obj": obj, "cur": cur}
+                continue
+            if op == "param":
+                p.set(st[1])
+                continue
+            if op == "mutate_circuit":
+                c = fam[st[1]]
+                if st[2] == "bs":
+                    c.bs(st[3], st[3] + 1, reflectivity=0.35)
+                elif st[2] == "ps":
+                    c.ps(st[3], 0.4)
+                elif gates.get(st[1], 0) < 2:
+                    gates[st[1]] = gates.get(st[1], 0) + 1
+                    c.add(heralded_gate(), st[3])
+                continue
+            if op == "mutate":
+                ref, v = st[1], st[2]
+                if ref.startswith("B"):
+                    comp[ref].backend = v
+                elif ref.startswith("SRC"):
+                    _set_source(comp[ref], v)
+                else:
+                    _set_detector(comp[ref], v)
+                vals[ref] = v
+                continue
+            o = objs.get(st[1])
+            if o is None:
+                continue
+            obj, cur, kind = o["obj"], o["cur"], o["kind"]
+            if op == "set":
+                attr, v = st[2], st[3]
+                if attr == "circuit":
+                    obj.circuit = fam[v]
+                    cur["circuit"] = v
+                elif attr == "input" and kind != "analyzer":
+                    new = pad(v, fam[cur["circuit"]])
+                    obj.input_state = lw.State(new)
+                    cur["input"] = new
+                elif attr == "backend" and kind == "sampler":
+                    obj.backend = v[4:] if v.startswith("str:") else comp[v]
+                    cur["b"] = v
+                elif attr == "source" and kind == "sampler":
+                    if isinstance(v, list):  # a new private Source with these values
+                        obj.source = _mk_source(v)
+                        cur["s"], cur["own_s"] = "own", v
+                    else:
+                        obj.source = comp[v]
+                        cur["s"] = v
+                elif attr == "detector" and kind == "sampler":
+                    if isinstance(v, list):
+                        obj.detector = _mk_detector(v)
+                        cur["d"], cur["own_d"] = "own", v
+                    else:
+                        obj.detector = comp[v]
+                        cur["d"] = v
+                elif attr == "post_select" and kind == "quick":
+                    obj.post_select = None if v is None else ps_for(v)
+                    cur["ps"] = v
+                elif attr == "post_select" and kind == "analyzer":
+                    obj.post_selection = None if v is None else ps_for(v)
+                    cur["ps"] = v
+                elif attr == "pnr" and kind == "quick":
+                    obj.photon_counting = v
+                    cur["pnr"] = v
+                continue
+            if op == "mutate_own":
+                if kind != "sampler":
+                    continue
+                what, v = st[2], st[3]
+                if what == "backend":
+                    obj.backend.backend = v
+                    if cur["b"].startswith("str:"):
+                        cur["b"] = f"str:{v}"
+                    else:
+                        vals[cur["b"]] = v
+                elif what == "source":
+                    _set_source(obj.source, v)
+                    if cur["s"] == "own":
+                        cur["own_s"] = v
+                    else:
+                        vals[cur["s"]] = v
+                else:
+                    _set_detector(obj.detector, v)
+                    if cur["d"] == "own":
+                        cur["own_d"] = v
+                    else:
+                        vals[cur["d"]] = v
+                continue
+            if op != "obs":
+                continue
+            c = fam[cur["circuit"]]
+            what = st[2]
+            if kind == "analyzer":
+                if what != "analyze":
+                    continue
+                ins, withexp = [pad(b, c) for b in st[3]], st[4]
+
+                def do(a, ins=ins, withexp=withexp):
+                    states = [lw.State(x) for x in ins]
+                    exp = {x: x for x in states} if withexp else None
+                    res = a.analyze(states, exp)
+                    out = {"outputs": [x.s for x in res.outputs],
+                           "array": np.round(np.array(res.array, dtype=float), 10).tolist(),
+                           "performance": round(float(res.performance), 10), "has_error_rate": hasattr(res, "error_rate")}
+                    if withexp:
+                        er = float(res.error_rate)
+                        out["error_rate"] = None if np.isnan(er) else round(er, 9)
+                    return out
+
+                a, fo = observe(lambda: do(obj)), observe(lambda: do(fresh(o)))
+            else:
+                if len(cur["input"]) != c.input_modes or what == "analyze":
+                    ctx.count("shared:obs_skipped_input_length")
+                    continue
+                if what == "sample_N_inputs" and kind != "sampler":
+                    what = "sample_N_outputs"
+                if what == "read":
+                    a = observe(lambda: norm_dist(obj.probability_distribution))
+                    fo = observe(lambda: norm_dist(fresh(o).probability_distribution))
+                elif what == "sample":
+                    def one(x, seed=st[3]):
+                        pyrandom.seed(seed)
+                        return tuple(x.sample().s)
+                    a, fo = observe(lambda: one(obj)), observe(lambda: one(fresh(o)))
+                else:
+                    n, seed, rules = st[3], st[4], st[5]
+
+                    def many(x, shared_ps, what=what, n=n, seed=seed, rules=rules):
+                        kw = {}
+                        if kind == "sampler" and rules is not None:
+                            kw["post_select"] = ps_for(rules) if shared_ps else mk_ps(rules)
+                        f = x.sample_N_outputs if what == "sample_N_outputs" else x.sample_N_inputs
+                        return sorted((tuple(t.s), m) for t, m in f(n, seed=seed, **kw).items())
+                    a, fo = observe(lambda: many(obj, True)), observe(lambda: many(fresh(o), False))
+            if a[0] == "raise":
+                ctx.count("shared:obs_raised:" + str(a[1]))
+            if not same_obs(a, fo):
+                shown = {x: (eff(o, x) if kind == "sampler" else None) for x in ("b", "s", "d")} if kind == "sampler" else {}
+                return [f"oracle: step #{k} {st}: long-lived {kind} {st[1]} gives {str(a)[:140]} but a fresh object with the same "
+                        f"settings ({ {**{x: y for x, y in cur.items() if not x.startswith('own_')}, **shown} }) gives {str(fo)[:140]}"]
+        except Exception as e:  # noqa: BLE001
+            return [f"oracle: step #{k} {st} raised {exc_class(e)}: {str(e)[:80]}"]
+    return []
+
+
+def _shared_corpus() -> list:
+    out = []
+    smp = lambda b, s="own", d="own": {"b": b, "s": s, "d": d}  # noqa: E731
+    rd = lambda n: ["obs", n, "read"]  # noqa: E731
+    # one Backend object, circuits related as lossy circuit / Unitary of its U_full (same photons, same columns),
+    # same matrix with other herald photons, herald on another mode - in both orders, first holder read again
+    pairs = [("lossy", "lossy_dil"), ("idleherald0", "idleherald1"), ("herald_out0", "herald_out2"), ("plain", "swap"),
+             ("herald_out0", "herald_in0")]
+    for a, b in pairs + [(y, x) for x, y in pairs]:
+        for ref in ("B0", "B1"):
+            for base in ([1, 1, 0], [2, 0, 0]):
+                out.append([["new", "S1", "sampler", a, base, smp(ref, "SRC0", "D0")], rd("S1"),
+                            ["new", "S2", "sampler", b, base, smp(ref, "SRC0", "D0")], rd("S2"), rd("S1"),
+                            ["obs", "S2", "sample_N_outputs", 20, 5, None], ["obs", "S1", "sample_N_inputs", 20, 6, None]])
+    # one living Sampler moved between the related circuits while a second one holds the same Backend
+    out.append([["new", "S1", "sampler", "lossy", [1, 1, 0], smp("B0")], rd("S1"), ["new", "S2", "sampler", "plain", [1, 1, 0], smp("B0")],
+                rd("S2"), ["set", "S2", "circuit", "lossy_dil"], ["set", "S2", "input", [1, 1, 0]], rd("S2"), rd("S1")])
+    # a Source shared by two Samplers is changed in place / through one holder; both follow, a third with its own does not
+    for how in (["mutate", "SRC0", [0.8, 1, 1]], ["mutate_own", "S1", "source", [1, 1, 0.7]]):
+        out.append([["new", "S1", "sampler", "plain", [1, 1, 0], smp("B0", "SRC0")], ["new", "S2", "sampler", "lossy", [1, 1, 0], smp("B0", "SRC0")],
+                    ["new", "S3", "sampler", "plain", [1, 1, 0], smp("str:permanent")], rd("S1"), rd("S2"), rd("S3"), how,
+                    rd("S2"), rd("S3"), rd("S1"), ["obs", "S2", "sample", 3]])
+    # the Sampler's OWN default components changed in place: nobody else may follow
+    out.append([["new", "S1", "sampler", "plain", [1, 1, 0], smp("str:permanent")], ["new", "S2", "sampler", "plain", [1, 1, 0], smp("str:permanent")],
+                rd("S1"), rd("S2"), ["mutate_own", "S1", "source", [0.8, 1, 1]], ["mutate_own", "S1", "detector", [0.9, 0, False]],
+                ["mutate_own", "S1", "backend", "slos"], rd("S2"), ["obs", "S2", "sample_N_inputs", 20, 3, None], rd("S1"),
+                ["obs", "S1", "sample_N_inputs", 20, 3, None]])
+    # a Detector shared by two Samplers changed in place between sampling calls
+    out.append([["new", "S1", "sampler", "herald_out0", [1, 1, 0], smp("B0", "own", "D0")],
+                ["new", "S2", "sampler", "herald_out2", [1, 1, 0], smp("B1", "own", "D0")],
+                ["obs", "S1", "sample_N_inputs", 20, 1, None], ["obs", "S2", "sample_N_inputs", 20, 1, None],
+                ["mutate", "D0", [0.85, 0, False]], ["obs", "S2", "sample_N_inputs", 20, 2, None], ["obs", "S1", "sample", 4],
+                ["obs", "S1", "sample_N_outputs", 20, 2, [[0], [1]]]])
+    # a shared Backend object switched in place: every holder follows
+    out.append([["new", "S1", "sampler", "lossy", [1, 1, 0], smp("B0")], ["new", "S2", "sampler", "idleherald1", [1, 0, 0], smp("B0")], rd("S1"),
+                rd("S2"), ["mutate", "B0", "slos"], rd("S2"), rd("S1"), ["mutate_own", "S2", "backend", "permanent"], rd("S1"), rd("S2")])
+    # one PostSelection object and one circuit object used by a Sampler, a QuickSampler and an Analyzer in turn;
+    # the circuit is replaced / extended in place between the calls
+    r = [[0], [1]]
+    for second in ("herald_out2", "herald_in0", "idleherald1"):
+        out.append([["new", "Q1", "quick", "herald_out0", [1, 1, 0], {"pnr": True, "ps": r}], ["new", "A1", "analyzer", "herald_out0", [1, 1, 0], {"ps": r}],
+                    ["new", "S1", "sampler", "herald_out0", [1, 1, 0], smp("B0")], rd("Q1"), ["obs", "A1", "analyze", [[1, 1, 0]], False],
+                    ["obs", "S1", "sample_N_outputs", 20, 7, r], ["set", "A1", "circuit", second], ["set", "Q1", "circuit", second],
+                    ["set", "S1", "circuit", second], ["obs", "A1", "analyze", [[1, 1, 0]], True], ["obs", "Q1", "sample", 5], rd("Q1"),
+                    ["obs", "S1", "sample_N_outputs", 20, 7, r], rd("S1")])
+    for cname in ("plain", "lossy", "herald_out0"):
+        out.append([["new", "S1", "sampler", cname, [1, 0, 1], smp("B1")], ["new", "Q1", "quick", cname, [1, 0, 1], {"pnr": True, "ps": None}],
+                    ["new", "A1", "analyzer", cname, [1, 0, 1], {"ps": None}], rd("S1"), ["obs", "Q1", "sample", 2],
+                    ["obs", "A1", "analyze", [[1, 0, 1]], False], ["mutate_circuit", cname, "gate", 1], rd("S1"), ["obs", "Q1", "sample", 2],
+                    ["obs", "A1", "analyze", [[1, 0, 1]], False], ["param", 0.9], ["obs", "Q1", "sample_N_outputs", 20, 1, None], rd("S1")])
+    return out
+
+
+SHARED_CORPUS = _shared_corpus()
+
+
+def gen_shared(ctx: Ctx, rng) -> list:
+    steps: list = []
+    objs: dict = {}
+    n_of = {"sampler": 0, "quick": 0, "analyzer": 0}
+    # circuits are drawn from a small subset so that holders meet on the same / related circuit objects
+    group = rng.choice([["lossy", "lossy_dil", "plain"], ["idleherald0", "idleherald1", "plain"],
+                        ["herald_out0", "herald_out2", "herald_in0"], ["lossy", "lossy_dil", "heralded_sub", "swap"], SH_CIRCUITS])
+    base0 = rng.choice(SH_INPUTS[:4])
+
+    def new(kind: str) -> str:
+        n_of[kind] += 1
+        name = {"sampler": "S", "quick": "Q", "analyzer": "A"}[kind] + str(n_of[kind])
+        if kind == "sampler":
+            cfg = {"b": rng.choice(SH_BREFS), "s": rng.choice(["SRC0", "SRC0", "SRC1", "own"]), "d": rng.choice(["D0", "D0", "D1", "own"])}
+        elif kind == "quick":
+            cfg = {"pnr": rng.random() < 0.6, "ps": rng.choice(SH_RULES)}
+        else:
+            cfg = {"ps": rng.choice(SH_RULES)}
+        steps.append(["new", name, kind, rng.choice(group), base0 if rng.random() < 0.7 else rng.choice(SH_INPUTS), cfg])
+        objs[name] = kind
+        ctx.count(f"shared:new:{kind}")
+        return name
+
+    def obs(name: str) -> None:
+        kind = objs[name]
+        if kind == "analyzer":
+            ins = rng.choice([[[1, 0, 0]], [[1, 1, 0]], [[0, 1, 1], [1, 0, 1]], [[1, 0, 0], [0, 0, 1]]])
+            steps.append(["obs", name, "analyze", ins, rng.random() < 0.4])
+            return
+        r = rng.random()
+        if r < 0.5:
+            steps.append(["obs", name, "read"])
+        elif r < 0.65:
+            steps.append(["obs", name, "sample", rng.randrange(1000)])
+        elif r < 0.85 or kind != "sampler":
+            steps.append(["obs", name, "sample_N_outputs", rng.choice([5, 20]), rng.randrange(1000), rng.choice(SH_RULES)])
+        else:
+            steps.append(["obs", name, "sample_N_inputs", rng.choice([5, 20]), rng.randrange(1000), rng.choice(SH_RULES)])
+
+    new("sampler")
+    new(rng.choice(["sampler", "sampler", "quick", "analyzer"]))
+    for n in list(objs):
+        obs(n)
+    for _ in range(rng.randint(4, ctx.n(9, 12))):
+        r = rng.random()
+        name = rng.choice(list(objs))
+        kind = objs[name]
+        if r < 0.15 and len(objs) < 5:
+            obs(new(rng.choice(["sampler", "sampler", "quick", "analyzer"])))
+        elif r < 0.32:
+            steps.append(["set", name, "circuit", rng.choice(group)])
+            if kind != "analyzer":
+                steps.append(["set", name, "input", base0 if rng.random() < 0.6 else rng.choice(SH_INPUTS)])
+        elif r < 0.4 and kind != "analyzer":
+            steps.append(["set", name, "input", rng.choice(SH_INPUTS)])
+        elif r < 0.5:
+            ref = rng.choice(["B0", "B1", "SRC0", "SRC0", "SRC1", "D0", "D0", "D1"])
+            v = rng.choice(["permanent", "slos"]) if ref[0] == "B" else rng.choice(SH_SRC) if ref[0] == "S" else rng.choice(SH_DET)
+            steps.append(["mutate", ref, v])
+        elif r < 0.6 and kind == "sampler":
+            what = rng.choice(["backend", "source", "source", "detector"])
+            v = rng.choice(["permanent", "slos"]) if what == "backend" else rng.choice(SH_SRC) if what == "source" else rng.choice(SH_DET)
+            steps.append(["mutate_own", name, what, v])
+        elif r < 0.72 and kind == "sampler":
+            attr = rng.choice(["backend", "source", "detector"])
+            v = (rng.choice(SH_BREFS) if attr == "backend" else
+                 rng.choice(["SRC0", "SRC1", rng.choice(SH_SRC)]) if attr == "source" else rng.choice(["D0", "D1", rng.choice(SH_DET)]))
+            steps.append(["set", name, attr, v])
+        elif r < 0.72 and kind == "quick":
+            steps.append(["set", name, rng.choice(["post_select", "pnr"]), None])
+            steps[-1][3] = rng.choice(SH_RULES) if steps[-1][2] == "post_select" else rng.random() < 0.5
+        elif r < 0.72:
+            steps.append(["set", name, "post_select", rng.choice(SH_RULES)])
+        elif r < 0.78:
+            steps.append(["param", rng.choice([0.1, 0.5, 0.9])])
+        elif r < 0.86:
+            steps.append(["mutate_circuit", rng.choice(group), rng.choice(["bs", "ps", "gate"]), rng.randrange(2)])
+        # after every step: look at one or two holders, not necessarily the one that was touched
+        for n in rng.sample(list(objs), min(len(objs), rng.randint(1, 2))):
+            obs(n)
+    return steps
+
+
+def shared_histories(ctx: Ctx, rng) -> None:
+    ctx.count("shared:oracle-only")  # (the cache model has no notion of a component shared between two caches)
+    todo = [("corpus", h) for h in SHARED_CORPUS] + [("random", gen_shared(ctx, rng)) for _ in range(ctx.n(70, 1500))]
+    reported = 0
+    for tag, steps in todo:
+        if ctx.out_of_time() or reported >= 3:
+            break
+        probs = run_shared(ctx, steps)
+        nobs = [k for k, st in enumerate(steps) if st[0] == "obs"]
+        holders = {st[1] for st in steps if st[0] == "new"}
+        ctx.count(f"shared:{tag}")
+        for st in steps:
+            ctx.count(f"shared:{st[0]}" + (f":{st[2]}" if st[0] in ("set", "obs", "mutate_own") else ""))
+        ctx.case(json.dumps(["shared", steps]), len(nobs) >= 2 and len(holders) >= 2)
+        if probs:
+            reported += 1
+            small = ddmin(steps, lambda sub: bool(run_shared(ctx, sub)), max_tests=200)
+            sprobs = run_shared(ctx, small) or probs
+            shape = "+".join(st[0] + (":" + str(st[2]) if st[0] in ("set", "mutate_own") else "") for st in small[:-1])[:90]
+            ctx.violation(sprobs[0], {"object": "shared", "history": small, "problems": sprobs},
+                          sig={"kind": "shared-" + shape, "object": "shared"})
+
+
 def run(ctx: Ctx) -> None:
     ctx.rule = ("random histories (4-14 steps) of circuit reassignment (incl. circuits with equal U_full but different "
                 "herald photons / mode split), in-place circuit edits, Parameter updates, input/source/backend/"
                 "post-selection/detector changes, reads and seeded sampling calls on a long-lived Sampler or "
-                "QuickSampler, each observation compared with a fresh object; non-trivial = a read/sample follows a "
-                "reconfiguration that follows an earlier read; distinct = distinct history")
+                "QuickSampler, each observation compared with a fresh object; histories in which several Samplers / "
+                "QuickSamplers / Analyzers share Backend / Source / Detector / PostSelection / circuit objects and are "
+                "reconfigured and observed in interleaved order; non-trivial = a read/sample follows a "
+                "reconfiguration that follows an earlier read, resp. >= 2 observations on >= 2 holders; distinct = "
+                "distinct history")
     N = ctx.n(120, 2500)
     rng = ctx.rng
+    shared_histories(ctx, pyrandom.Random(f"C11-shared-{ctx.seed}"))
     for i in range(N):
         if ctx.out_of_time():
             break
@@ -363,7 +802,10 @@ def run(ctx: Ctx) -> None:
 
 def replay(ctx: Ctx, path: str) -> None:
     data = json.load(open(path))["replay"]
-    probs = run_history(ctx, data["object"], data["history"])
+    if data["object"] == "shared":
+        probs = run_shared(ctx, data["history"])
+    else:
+        probs = run_history(ctx, data["object"], data["history"])
     ctx.case("replay", True, sample=data)
     for p in probs:
         print("replay:", p)
